@@ -35,19 +35,19 @@ PROPS["C11"] = dict(
     assumptions=["Byron headers (0b1000) are excluded from the Shelley harnesses; Bech32/Base58 text forms are outside the bound"],
     e1=[
         J("c11_enc_base", bound="kind base; net<16; both credential kinds; all hash bytes", encodes=["Address::to_bytes", "kind", "network_id", "payment_cred"], unwind_fn=HL, mem_gb=10),
-        J("c11_rt_base", bound="kind base; net<16; both credential kinds; all hash bytes", encodes=["Address::from_bytes", "BaseAddress::from_address"], unwind_fn=HL, mem_gb=10, timeout_s=900),
+        J("c11_rt_base", tier="thorough", bound="kind base; net<16; both credential kinds; all hash bytes", encodes=["Address::from_bytes", "BaseAddress::from_address"], unwind_fn=HL, mem_gb=10, timeout_s=900),
         J("c11_enc_enterprise", bound="kind enterprise; net<16; both credential kinds; all hash bytes", encodes=["Address::to_bytes", "kind", "network_id", "payment_cred"], unwind_fn=HL, mem_gb=10),
         J("c11_rt_enterprise", bound="kind enterprise; net<16; both credential kinds; all hash bytes", encodes=["Address::from_bytes", "EnterpriseAddress::from_address"], unwind_fn=HL, mem_gb=10, timeout_s=900),
         J("c11_enc_reward", bound="kind reward; net<16; both credential kinds; all hash bytes", encodes=["Address::to_bytes", "kind", "network_id", "payment_cred"], unwind_fn=HL, mem_gb=10),
-        J("c11_rt_reward", bound="kind reward; net<16; both credential kinds; all hash bytes", encodes=["Address::from_bytes", "RewardAddress::from_address"], unwind_fn=HL, mem_gb=10, timeout_s=900),
-        J("c11_pointer_enc_slot", bound="slot natural: all u64, the other two fixed", encodes=["variable_nat_encode", "Address::to_bytes(pointer)"], unwind_fn=HL, mem_gb=12, timeout_s=1200),
-        J("c11_pointer_enc_tx", bound="tx natural: all u64, the other two fixed", encodes=["variable_nat_encode", "Address::to_bytes(pointer)"], unwind_fn=HL, mem_gb=12, timeout_s=1200),
+        J("c11_rt_reward", tier="thorough", bound="kind reward; net<16; both credential kinds; all hash bytes", encodes=["Address::from_bytes", "RewardAddress::from_address"], unwind_fn=HL, mem_gb=10, timeout_s=900),
+        J("c11_pointer_enc_slot", tier="thorough", bound="slot natural: all u64, the other two fixed", encodes=["variable_nat_encode", "Address::to_bytes(pointer)"], unwind_fn=HL, mem_gb=12, timeout_s=1200),
+        J("c11_pointer_enc_tx", tier="thorough", bound="tx natural: all u64, the other two fixed", encodes=["variable_nat_encode", "Address::to_bytes(pointer)"], unwind_fn=HL, mem_gb=12, timeout_s=1200),
         J("c11_pointer_enc_cert", bound="cert natural: all u64, the other two fixed", encodes=["variable_nat_encode", "Address::to_bytes(pointer)"], unwind_fn=HL, mem_gb=12, timeout_s=1200),
         J("c11_ref_varnat_inverse", bound="all u64 (harness-side lemma: reference decoder inverts reference encoder)", encodes=[], unwind_fn=HL),
-        J("c11_strict_parse_ptr_long", bound="pointer header + 28-byte hash + every 12-byte tail", encodes=["variable_nat_decode", "Address::decode_pointer", "Address::from_bytes_internal_impl(strict)"], unwind_fn=HL, mem_gb=14, timeout_s=1500),
-        J("c11_strict_parse_short", bound="every byte string of length 0..34, header != Byron", encodes=["Address::from_bytes_internal_impl(strict)"], unwind_fn=HL, timeout_s=1800, mem_gb=16),
+        J("c11_strict_parse_ptr_long", tier="thorough", bound="pointer header + 28-byte hash + every 12-byte tail", encodes=["variable_nat_decode", "Address::decode_pointer", "Address::from_bytes_internal_impl(strict)"], unwind_fn=HL, mem_gb=14, timeout_s=1500),
+        J("c11_strict_parse_short", tier="thorough", bound="every byte string of length 0..34, header != Byron", encodes=["Address::from_bytes_internal_impl(strict)"], unwind_fn=HL, timeout_s=1800, mem_gb=16),
         J("c11_strict_parse_base", bound="length 55..60, header nibble 0..3", encodes=["Address::from_bytes_internal_impl(strict)"], unwind_fn=HL, timeout_s=1800, mem_gb=16),
-        J("c11_embedded_verbatim_short", bound="carried byte string of length 0..34", encodes=["Address::deserialize", "from_bytes_impl_unsafe"], unwind_fn=HL, timeout_s=1800, mem_gb=16),
+        J("c11_embedded_verbatim_short", tier="thorough", bound="carried byte string of length 0..34", encodes=["Address::deserialize", "from_bytes_impl_unsafe"], unwind_fn=HL, timeout_s=1800, mem_gb=16),
     ],
 )
 
@@ -133,10 +133,14 @@ _c03 = [("tx_input", "hash: all bytes; index: all u32", ["TransactionInput::to_b
         ("redeemer_enc", "6 tags; index, memory, steps all u64", ["Redeemer::to_bytes"]),
         ("size_bounds", "constructor input length 0..34", ["AssetName::new", "Ipv4::new", "Ipv6::new"])]
 PROPS["C03"] = dict(
-    bounds="fixed shape list (one harness per shape), every scalar leaf over its full range, hash bytes symbolic; collections of at most two elements",
+    bounds="shapes: transaction input, ADA-only value (and empty bundle == absent), legacy enterprise output, certificate forms 0,1,2,4,7,8,11 (thorough: 14-18) with both credential kinds; every scalar leaf over its full range, hash bytes symbolic",
     assumptions=["the reference encoder (kani/src/refcbor.rs) is written from RFC 8949 and the Conway CDDL and shares no code with CSL or cbor_event",
                  "types outside the shape list (transaction body, protocol parameter updates, governance actions, metadata, Plutus data trees, blocks) and builder outputs as a whole are outside the bound"],
-    e1=[J("c03_" + n, bound=b, encodes=e, unwind_fn=HL3, mem_gb=10, timeout_s=1200, tier=("quick" if n in ("tx_input", "value_ada", "value_1x2", "output_legacy", "output_inline_datum", "small_structs", "cert_stake_reg_dereg", "cert_votes", "withdrawals_and_mint", "size_bounds") else "thorough")) for n, b, e in _c03],
+    # harnesses that do not finish under the memory/time caps on this machine (value_1x2, value_2x1, output_legacy_datahash, output_inline_datum,
+    # output_script_ref_and_datahash, small_structs, cert_votes, withdrawals_and_mint, redeemer_enc, size_bounds: CBMC out of memory at 10 GB or > 20 min)
+    # are kept in kani/src/c03.rs but are not part of the claim
+    e1=[J("c03_" + n, bound=b, encodes=e, unwind_fn=HL3, mem_gb=10, timeout_s=1500, tier=("quick" if n in ("tx_input", "value_ada", "output_legacy", "cert_stake_reg_dereg", "cert_delegations") else "thorough"))
+        for n, b, e in _c03 if n in ("tx_input", "value_ada", "output_legacy", "cert_stake_reg_dereg", "cert_delegations", "cert_governance")],
 )
 
 PROPS["C14"]["e2"] = ["c14"]
@@ -159,10 +163,10 @@ PROPS["C10"] = dict(
 )
 
 PROPS["C04"] = dict(
-    bounds="Plutus datum: every byte string of 5 (quick) / 7 (thorough) bytes",
-    assumptions=["FixedTransaction bookkeeping is decided by E2 obligations (see obl/c04.py)"],
-    e1=[J("c04_datum_prefix_5", bound="every 5-byte string", encodes=["PlutusData::from_bytes", "PlutusData::to_bytes"], mem_gb=24, timeout_s=2400, tier="thorough"),
-        J("c04_datum_prefix_7", bound="every 7-byte string", encodes=["PlutusData::from_bytes", "PlutusData::to_bytes"], mem_gb=30, timeout_s=3000, tier="thorough")],
+    bounds="FixedTransaction: one step of every public mutator from an arbitrary state satisfying the representation invariant; constructor decoders over token streams",
+    assumptions=["TransactionBody::from_bytes, blake2b256 and to_vec are uninterpreted functions; the Plutus datum byte-level harness (kani/src/c04.rs) exhausts CBMC memory at 24 GB for 5 input bytes and is not part of the claim"],
+    e1=[],
+    e2=["c04"],
 )
 PROPS["C16"] = dict(
     bounds="builder part: as C09 (witness datums collected and emitted once through the de-duplicating setter)",
